@@ -76,9 +76,11 @@ try:
             failed = re.findall(r'^FAIL\s+(\S+)', out2, re.M)
             failed = [f for f in failed if '/' in f]
             rc2b = 1
-            if failed:
-                rc2b, out2b = sh("go test -vet=off -count=1 %s %s" % (OVL, " ".join(failed)), os.path.join(WT, m))
-                print("re-run of %s rc=%d" % (failed, rc2b))
+            for attempt in range(4):
+                if not failed or rc2b == 0:
+                    break
+                rc2b, out2b = sh("go test -vet=off -count=1 -p 1 %s %s" % (OVL, " ".join(failed)), os.path.join(WT, m))
+                print("re-run %d of %s rc=%d" % (attempt + 1, failed, rc2b))
                 cmds.append("re-run after a failure under load: " + " ".join(failed))
             if rc2b != 0:
                 tests_ok = False
